@@ -126,11 +126,11 @@ Proof.
   pose proof (H x (or_introl eq_refl)). assert (len l <= len (flat_map g l)) by (apply IH; intros; apply H; now right). lia.
 Qed.
 
-Lemma as_vstrs_map l : as_vstrs (VList (map VStr l)) = Ok l.
+Lemma as_vstrs_map l : as_vstrs true (VList (map VStr l)) = Ok l.
 Proof. cbn [as_vstrs]. induction l as [|s l IH]; [reflexivity|]. cbn [map fold_right]. rewrite IH. reflexivity. Qed.
 
 Lemma rd_str_vec_rt F ver d l rest : strs_ok l = true -> fits F (strs_into_bytes l) -> d + 1 < 128 ->
-  rd_str_vec (rd_const true F ver d) (strs_into_bytes l ++ rest) = Ok (l, rest).
+  rd_str_vec true (rd_const true F ver d) (strs_into_bytes l ++ rest) = Ok (l, rest).
 Proof.
   intros Hl HF Hd. apply strs_ok_spec in Hl. destruct Hl as [H1 H2]. unfold rd_str_vec, strs_into_bytes in *.
   rewrite <- app_assoc.
@@ -140,7 +140,7 @@ Proof.
   - intros f Hf. apply elems_strs_rt; [assumption|lia|lia].
 Qed.
 Lemma rd_str_rt F ver d s i rest : str_ok s = true -> fits F (str_into_bytes s i) -> d < 128 ->
-  rd_str (rd_const true F ver d) (str_into_bytes s i ++ rest) = Ok (s, rest).
+  rd_str true (rd_const true F ver d) (str_into_bytes s i ++ rest) = Ok (s, rest).
 Proof. intros. unfold rd_str. rewrite rc_str_rt by assumption. reflexivity. Qed.
 
 (* ---- locals of 3.11 *)
